@@ -669,6 +669,57 @@ def syntactic_ties(ctx):
                sorted(reads) == ["stderr_reader.read(io.DEFAULT_BUFFER_SIZE)", "stdout_reader.read(io.DEFAULT_BUFFER_SIZE)"], repr(reads))
 
 
+HISTORY_SCRIPT = r'''
+import json, os, sys
+sys.path.insert(0, sys.argv[1])
+os.chdir(sys.argv[2])
+import in_toto.runlib as rl
+os.makedirs("d/sub", exist_ok=True)
+open("d/f", "w").write("x\n"); open("d/sub/g", "w").write("y\n")
+child = [sys.executable, "-c", "import sys; sys.stdout.buffer.write('caf\\u00e9 \\u65e5\\u672c\\r\\n'.encode('utf-8')); sys.stderr.buffer.write('\\u00fc\\n'.encode('utf-8'))"]
+want = {"stdout": "caf\u00e9 \u65e5\u672c\n", "stderr": "\u00fc\n", "return-value": 0}
+out = []
+def run(label):
+    try:
+        got = rl.in_toto_run("s", [], [], child, record_streams=True).signed.byproducts
+        if got != want:
+            out.append("%s: recorded %r, the command wrote %r" % (label, got, want))
+    except Exception as e:
+        out.append("%s: in_toto_run raised %s" % (label, type(e).__name__))
+run("first call of the process")
+for label, earlier in (("after recording a dir: artifact", lambda: rl.record_artifacts_as_dict(["dir:d"])),
+                       ("after recording a dir: artifact with exclude patterns and a base path",
+                        lambda: rl.record_artifacts_as_dict(["dir:sub"], exclude_patterns=["*.o"], base_path="d")),
+                       ("after a failed recording", lambda: rl.record_artifacts_as_dict(["dir:no-such-dir"])),
+                       ("after in_toto_match_products on a dir: artifact",
+                        lambda: rl.in_toto_match_products(rl.in_toto_run("p", [], ["dir:d"], []).signed, paths=["dir:d"]))):
+    try:
+        earlier()
+    except Exception:
+        pass
+    run(label)
+print(json.dumps(out))
+'''
+
+
+def call_history(ctx):
+    """what an EARLIER in-toto call of the same process did must not change how a command's output is recorded:
+    a UTF-8 process records non-ASCII output, then records artifacts of every kind, then records the same output again"""
+    import subprocess
+    import sys
+    wd = os.path.join(ctx.work, "c13hist")
+    os.makedirs(wd, exist_ok=True)
+    script = os.path.join(wd, "hist.py")
+    with open(script, "w") as f:
+        f.write(HISTORY_SCRIPT)
+    env = dict(os.environ, LANG="C.UTF-8", LC_ALL="C.UTF-8", PYTHONUTF8="0", PYTHONCOERCECLOCALE="0")
+    p = subprocess.run([sys.executable, script, core.REPO, wd], env=env, capture_output=True, text=True, timeout=300)
+    try:
+        return json.loads(p.stdout.strip().splitlines()[-1])
+    except (ValueError, IndexError):
+        return ["history helper failed: rc %s %s" % (p.returncode, (p.stderr or p.stdout)[-300:])]
+
+
 def run(ctx):
     t_start = _time.time()
     soft, hard = resource.getrlimit(resource.RLIMIT_STACK)
@@ -818,6 +869,10 @@ def run(ctx):
             ctx.violation("execute_link(record_streams=False) %r: %r (want rc %d and empty strings)" % (cmd, out, rc),
                           {"kind": "real", "cmd": cmd, "timeout": 10, "via": "xl-norecord", "want": ["done", rc, "", ""]})
 
+    hist = call_history(ctx)
+    for pr in hist[:3]:
+        ctx.violation("stream recording depends on an earlier call of the same process: " + pr, {"kind": "call_history", "what": pr})
+
     broken = ctx.broken_obligations()
     if broken and not ctx.violations:
         ctx.violation("broken obligation(s): " + "; ".join(n for n, _ in broken),
@@ -895,6 +950,15 @@ def replay(ctx, obj):
                                                resource.getrlimit(resource.RLIMIT_STACK)[1]))
     model = core.Model()
     path = obj.get("rerun", "").split()[-1]
+    if r.get("kind") == "call_history":
+        hist = call_history(ctx)
+        for pr in hist:
+            print("  -> " + pr)
+        if hist:
+            print("VIOLATION property=C13 replay=%s" % path)
+            return 1
+        print("agree")
+        return 0
     if r.get("kind") == "sched":
         i = run_impl(ctx, r["case"])
         m = model_view(model.batch([model_req(r["case"])])[0])
